@@ -2036,6 +2036,53 @@ def _np_linspace(start, stop, num=50, endpoint=True, **kw):
     return SymArray(out)
 
 
+def _np_select(condlist, choicelist, default=0):
+    """numpy.select: the first condition that holds picks its choice, `default` where none does"""
+    if len(condlist) != len(choicelist):
+        raise ValueError("list of cases must be same length as list of conditions")
+    if len(condlist) == 0:
+        raise ValueError("select with an empty condition list is not possible")
+    res = default
+    for c, ch in reversed(list(zip(condlist, choicelist))):
+        res = _np_where(c, ch, res)
+    return res
+
+
+def _np_piecewise(x, condlist, funclist, *args, **kw):
+    """numpy.piecewise, following numpy/lib/function_base.py step by step (including its treatment of a bare condition:
+    it is wrapped into a list only when x is 0-d or 1-D; for a 2-D x each *row* of the mask is read as one condition
+    and used as a boolean index along axis 0)"""
+    xa = x if isinstance(x, SymArray) else SymArray(_obj(x))
+    n2 = len(funclist)
+    first = condlist[0] if isinstance(condlist, (list, tuple, SymArray, np.ndarray)) and getattr(condlist, "ndim", 1) > 0 else None
+    if isinstance(condlist, (SymBool, bool, np.bool_)) or getattr(condlist, "ndim", 1) == 0 or \
+            (not isinstance(first, (list, np.ndarray, SymArray)) and xa.a.ndim != 0):
+        condlist = [condlist]
+    conds = [c if isinstance(c, SymArray) else SymArray(_obj(c)) for c in (list(condlist) if not isinstance(condlist, list) else condlist)]
+    n = len(conds)
+    if n == n2 - 1:
+        anyc = conds[0]
+        for c in conds[1:]:
+            anyc = ew(lambda a, b: tb_(a) | tb_(b), anyc, c)
+        other = ew(lambda a: ~tb_(a), anyc)
+        conds.append(other if isinstance(other, SymArray) else SymArray(_obj(other)))
+        n += 1
+    elif n != n2:
+        raise ValueError(f"with {n} condition(s), either {n} or {n + 1} functions are expected")
+    y = SymArray(_obj(ew_arr(lambda e: const(0.0), xa)))
+    for cond, func in zip(conds, funclist):
+        ca = cond.a
+        if ca.ndim > xa.a.ndim or ca.shape != xa.a.shape[:ca.ndim]:
+            raise IndexError(f"boolean index did not match indexed array along dimension 0; dimension is {xa.a.shape[0] if xa.a.ndim else 0} "
+                             f"but corresponding boolean dimension is {ca.shape[0] if ca.ndim else 0}")
+        full = SymArray(np.broadcast_to(ca.reshape(ca.shape + (1,) * (xa.a.ndim - ca.ndim)), xa.a.shape).copy())
+        vals = func(xa, *args, **kw) if callable(func) else func
+        y = _np_where(full, vals, y)
+        if not isinstance(y, SymArray):
+            y = SymArray(_obj(y))
+    return y
+
+
 def _has_sym(x):
     if isinstance(x, (SymFloat, SymBool, SymArray, SymInt)):
         return True
@@ -2048,7 +2095,7 @@ def _has_sym(x):
 
 TABLE = {
     "isnan": _lift(_isnan), "isinf": _lift(_isinf), "isfinite": _lift(_isfinite),
-    "where": _np_where, "maximum": _lift(_maximum), "minimum": _lift(_minimum),
+    "where": _np_where, "select": _np_select, "piecewise": _np_piecewise, "maximum": _lift(_maximum), "minimum": _lift(_minimum),
     "fmax": _lift(_fmax), "fmin": _lift(_fmin),
     "sqrt": _lift(_sqrt), "square": _lift(lambda a: _mul(tf(a), tf(a))),
     "absolute": _lift(lambda a: _abs(tf(a))), "fabs": _lift(lambda a: _abs(tf(a))), "abs": _lift(lambda a: _abs(tf(a))),
